@@ -112,6 +112,11 @@ fn run_session(seed: u64, n: u64, long: bool, ev: &mut Evidence) {
         .collect();
 
     let plans2 = plans.clone();
+    // 0 = nothing, 1 = set_decode_level, 2 = (redundant) enable before request k
+    // (callback style only: there the command is queued by the call itself, so submission order is defined)
+    let settings: Vec<u8> = (0..nreq).map(|_| if long || style != Style::Callback { 0 } else { [0u8, 0, 0, 0, 0, 0, 1, 2][rng.usize_below(8)] }).collect();
+    let n_settings = settings.iter().filter(|x| **x != 0).count() as u64;
+    let settings_rep = settings.clone();
     let result = run_paused(|| async move {
         let seq = Seq::default();
         let (io, handle) = sim_io(vec![], seq.clone());
@@ -228,6 +233,12 @@ fn run_session(seed: u64, n: u64, long: bool, ev: &mut Evidence) {
                 }
                 settle().await;
             }
+            // commands that are not requests travel through the same queue: they must not consume ids
+            if settings[k] == 1 {
+                let _ = channel.set_decode_level(decode_level(decode)).await;
+            } else if settings[k] == 2 {
+                let _ = channel.enable().await;
+            }
             let req = ClientReq::Read {
                 kind: Kind::ReadHolding,
                 start: (k % 60_000) as u16,
@@ -270,6 +281,7 @@ fn run_session(seed: u64, n: u64, long: bool, ev: &mut Evidence) {
         Ok(x) => x,
     };
     ev.count("requests", plans.len() as u64);
+    ev.count("setting_commands_interleaved", n_settings);
     ev.count("idle_frames_injected", idle.len() as u64);
 
     // 1. order and uniqueness of transmitted requests
@@ -285,7 +297,7 @@ fn run_session(seed: u64, n: u64, long: bool, ev: &mut Evidence) {
         if f.1 as usize != k % 60_000 {
             ev.violation(
                 "requests_not_in_submission_order",
-                format!("frame #{k} carries the request submitted as #{}", f.1),
+                format!("frame #{k} carries the request submitted as #{} (style {}, queue {queue}, settings around: {:?}, plan {:?})", f.1, style.name(), &settings_rep[k.saturating_sub(2)..(k + 3).min(settings_rep.len())], plans.get(k)),
                 rep("order"),
             );
             return;
